@@ -347,6 +347,31 @@ func runC19(s *sut.SUT, cs c19Case) (rule, detail string, nontrivial bool) {
 
 func genC19(rt *rapid.T, statuses []int) c19Case {
 	cs := c19Case{Kind: "push"}
+	if rapid.IntRange(0, 5).Draw(rt, "shape") == 0 {
+		// window-boundary shape: W fast successes grow the window to exactly
+		// W+1, then one message fails (held, so that every success is in before
+		// its failure is seen) - the subtractive step lands on a multiple of 10
+		w := rapid.SampledFrom([]int{9, 9, 10, 11}).Draw(rt, "warm")
+		if thorough() {
+			w = rapid.SampledFrom([]int{9, 10, 19, 20, 29}).Draw(rt, "warm")
+		}
+		for i := 0; i < w; i++ {
+			cs.Msgs = append(cs.Msgs, c19Msg{Data: fmt.Sprintf(`{"i":%d}`, i), Replies: []c19Reply{{Status: 204}}})
+		}
+		nf := rapid.IntRange(1, 2).Draw(rt, "nfail")
+		m := c19Msg{Data: fmt.Sprintf(`{"i":%d}`, w)}
+		for j := 0; j < nf; j++ {
+			st := rapid.SampledFrom(statuses).Draw(rt, "failstatus")
+			for c19Success[st] {
+				st = 500
+			}
+			m.Replies = append(m.Replies, c19Reply{Status: st, HoldMs: 120})
+		}
+		m.Replies = append(m.Replies, c19Reply{Status: 200})
+		cs.Msgs = append(cs.Msgs, m)
+		cs.Manager = rapid.IntRange(0, 3).Draw(rt, "manager") == 0
+		return cs
+	}
 	n := rapid.IntRange(1, pick(12, 30)).Draw(rt, "nmsg")
 	slowLeft := 3
 	for i := 0; i < n; i++ {
